@@ -10,6 +10,7 @@ structure Token where
   re : Regex
   prec : Int            -- lexical precedence: `token(prec(p, …))`
   isString : Bool       -- specified as a String (true) or a RegExp (false)
+  immediate : Bool := false   -- `token.immediate(…)`: recognised only when no extras precede it
   deriving Repr, Inhabited
 
 /-- a candidate: token index (= position of the rule in the grammar) and match length (≥ 1) -/
@@ -45,7 +46,9 @@ structure Key where
   deriving Repr, DecidableEq
 
 def keyOf (toks : List Token) (c : Cand) : Key :=
-  { p := (tokAt toks c.1).prec, n := c.2, s := if (tokAt toks c.1).isString then 1 else 0, i := c.1 }
+  { p := (tokAt toks c.1).prec, n := c.2,
+    -- the generator's implicit precedence: String 2, RegExp 0, +1 for `token.immediate`
+    s := (if (tokAt toks c.1).isString then 2 else 0) + (if (tokAt toks c.1).immediate then 1 else 0), i := c.1 }
 
 /-- `a` is at least as good as `b` in the documented order -/
 def Better (a b : Key) : Prop :=
@@ -108,17 +111,22 @@ def skipExtras (isExtra : Nat → Bool) : List Nat → List Nat
   | [] => []
   | c :: rest => if isExtra c then skipExtras isExtra rest else c :: rest
 
-/-- one lexing step at `input` with the chooser `choose`: (token, start offset, length, rest) -/
-def lexOne (choose : List Nat → Option Cand) (isExtra : Nat → Bool) (input : List Nat) :
+/-- `token.immediate`: after `off > 0` skipped extras an immediate token is not a candidate -/
+def validAt (toks : List Token) (valid : Nat → Bool) (off : Nat) : Nat → Bool :=
+  fun i => valid i && (off == 0 || !(tokAt toks i).immediate)
+
+/-- one lexing step at `input`; the chooser is told how many extras were skipped (immediate tokens):
+(token, start offset, length, rest) -/
+def lexOne (choose : Nat → List Nat → Option Cand) (isExtra : Nat → Bool) (input : List Nat) :
     Option (Nat × Nat × Nat × List Nat) :=
   let inp := skipExtras isExtra input
-  match choose inp with
+  match choose (input.length - inp.length) inp with
   | some (i, n) => some (i, input.length - inp.length, n, inp.drop n)
   | none => none
 
 /-- `(token, start, end)` of every token, or `none` when no token matches somewhere
 (the real parser then enters error recovery).  `fuel` ≥ input length suffices (progress theorem). -/
-def tokenizeAux (choose : List Nat → Option Cand) (isExtra : Nat → Bool) :
+def tokenizeAux (choose : Nat → List Nat → Option Cand) (isExtra : Nat → Bool) :
     (fuel : Nat) → (pos : Nat) → (input : List Nat) → Option (List (Nat × Nat × Nat))
   | 0, _, _ => none
   | f + 1, pos, input =>
@@ -131,7 +139,7 @@ def tokenizeAux (choose : List Nat → Option Cand) (isExtra : Nat → Bool) :
           | some ts => some ((i, pos + off, pos + off + n) :: ts)
           | none => none
 
-def refTokenize (choose : List Nat → Option Cand) (isExtra : Nat → Bool) (input : List Nat) :
+def refTokenize (choose : Nat → List Nat → Option Cand) (isExtra : Nat → Bool) (input : List Nat) :
     Option (List (Nat × Nat × Nat)) :=
   tokenizeAux choose isExtra (input.length + 1) 0 input
 
